@@ -362,6 +362,8 @@ where
     pub metrics: Arc<Metrics>,
     /// `Option<Arc<dyn EventListener>>` in the real struct (not used by the shard methods on the pinned tree)
     pub _event_listener: Option<ListenerMarkT>,
+    /// the same field under the name it would have if a change started to use it
+    pub event_listener: Option<ListenerMarkT>,
 }
 
 pub struct ListenerMarkT { }
